@@ -135,7 +135,7 @@ deriving DecidableEq, Repr, Inhabited
 
 inductive Pc
   | start | picked | reading | merging | allocd | ready
-  | cLocked | cSnapped | cSwapped | cChecked | cPrevDone | cDecd | cRemoved | cReleased | cUnlocked
+  | cCloned | cLocked | cSnapped | cSwapped | cChecked | cPrevDone | cDecd | cRemoved | cReleased | cUnlocked
   | closeOwn | oDecd | oRemoved
   | doStart | doListed | doPended | doActived | doRolled | doEvicted | doRemoved
   | done
@@ -162,9 +162,13 @@ deriving Repr, Inhabited
 
 structure Cfg where
   recheck : Bool          -- removeVersion re-checks `ref == 0` under the family lock
+  cloneLocked : Bool := true -- CommitFamilyEditLog takes its snapshot and clones INSIDE the version-set mutex
   threshold : Nat := 2    -- FamilyOption.CompactThreshold
   rollupOn : Bool := false -- StoreOption.Rollup non-empty: a flush marks its output for rollup
-deriving Repr
+  /-- the family's merger (kv.Merger): what a compaction writes for the contents of its inputs.
+  Abstract: theorems about content across a compaction assume only the contract `MergerOk`
+  (Lemmas/C02Tokens.lean); the harness' merger is `mergeContent`. -/
+  merge : List Content → Content := mergeContent
 
 structure St where
   ver : Nat → VData
@@ -184,12 +188,13 @@ structure St where
   lock : Option Nat            -- storeVersionSet.mutex holder
   compacting : Bool            -- family.compacting
   hist : List Edit             -- ghost: edit logs installed so far, newest first
+  flushed : List Nat           -- ghost: tables written by flushes whose version swap is done
 
 def St.init (v0 f0 : Nat) : St :=
   { ver := fun _ => {}, ref := fun _ => 0, nextVer := v0 + 1, cur := v0, active := [v0],
     nextFile := f0, disk := [], content := fun _ => [], pending := [], cref := fun _ => none,
     snap := fun _ => {}, nSnap := 0, job := fun _ => {}, nJob := 0, lock := none,
-    compacting := false, hist := [] }
+    compacting := false, hist := [], flushed := [] }
 
 def St.setJob (s : St) (j : Nat) (b : Job) : St := { s with job := upd s.job j b }
 def St.setSnap (s : St) (i : Nat) (b : Snap) : St := { s with snap := upd s.snap i b }
@@ -283,12 +288,30 @@ def jSnap (s : St) (j : Nat) : St :=
   (buildVersion (snapAcquire s (some j)) (s.job j).edit).setJob j
     { s.job j with csnap := s.nSnap, newVer := s.nextVer, prev := s.cur, pc := .cSnapped }
 
+/-- variant `cloneLocked = false` (snapshot + Clone before `vs.mutex.Lock()`): the clone alone -/
+def cloneVersion (s : St) (e : Edit) : St :=
+  { s with ver := upd s.ver s.nextVer (applyEdit (s.ver s.cur) e), nextVer := s.nextVer + 1 }
+
+/-- …: `GetSnapshot()` + `Clone()` without the mutex (the edit is applied to the clone later, under
+the mutex; applying it to thread-local data earlier is the same) -/
+def jSnapU (s : St) (j : Nat) : St :=
+  (cloneVersion (snapAcquire s (some j)) (s.job j).edit).setJob j
+    { s.job j with csnap := s.nSnap, newVer := s.nextVer, pc := .cCloned }
+
+/-- …: `vs.mutex.Lock()`, persist, apply (`NextFileNumber` bump), enter `appendVersion` -/
+def jLockU (s : St) (j : Nat) : St :=
+  ({ setLock s (some j) with nextFile := s.nextFile + 1 }).setJob j { s.job j with prev := s.cur, pc := .cSnapped }
+
 def swapVersion (s : St) (v : Nat) (e : Edit) : St :=
   { s with active := v :: s.active, cur := v, hist := e :: s.hist }
 
+/-- ghost bookkeeping: the tables a flush commit made visible -/
+def noteFlush (s : St) (fs : List Nat) : St := { s with flushed := fs ++ s.flushed }
+
 /-- `appendVersion`: `Lock; activeVersions[v.ID()] = v; current = v; Unlock` -/
 def jSwap (s : St) (j : Nat) : St :=
-  swapVersion (setPc s j .cSwapped) (s.job j).newVer (s.job j).edit
+  noteFlush (swapVersion (setPc s j .cSwapped) (s.job j).newVer (s.job j).edit)
+    (if (s.job j).kind = .flush then outNo (s.job j) else [])
 
 /-- `appendVersion`: `previous.NumOfRef() == 0` (atomic load) -/
 def jCheck (s : St) (j : Nat) : St :=
@@ -376,11 +399,13 @@ def jstep (cfg : Cfg) (s : St) (j : Nat) : Option St :=
     | .picked => some (jPicked s j)
     | .reading => some (jRead s j)
     | .merging =>
-      if s.lock = none then some (jAlloc s j (mergeContent (b.inputs.map (fun m => s.content m.no))) 1) else none
+      if s.lock = none then some (jAlloc s j (cfg.merge (b.inputs.map (fun m => s.content m.no))) 1) else none
     | .allocd => some (jCreate cfg s j)
     | .ready =>
       if b.edit.isEmpty then some (setPc s j .cUnlocked)
-      else if s.lock = none then some (jLock s j) else none
+      else if cfg.cloneLocked then (if s.lock = none then some (jLock s j) else none)
+      else some (jSnapU s j)
+    | .cCloned => if s.lock = none then some (jLockU s j) else none
     | .cLocked => some (jSnap s j)
     | .cSnapped => some (jSwap s j)
     | .cSwapped => some (jCheck s j)
